@@ -27,6 +27,16 @@ EXPECTED = {"safe-list": "LIKELY_SAFE", "safe-dict": "LIKELY_SAFE", "suspicious"
             "likely-overtly": "LIKELY_OVERTLY_MALICIOUS", "overtly": "OVERTLY_MALICIOUS", "dup-proto": "LIKELY_UNSAFE"}
 
 
+# shapes used alone and as the first / second member of a pair only (kept out of the big stack product)
+EXTRA_SHAPES = {
+    "eval-then-nonstd-call": asm(("GLOBAL", ("builtins", "eval")), sbu("1+1"), "TUPLE1", "REDUCE", "POP",
+                                 ("GLOBAL", ("vp_sink", "hit")), "EMPTY_TUPLE", "REDUCE", "STOP"),
+    "nonstd-import-then-eval": asm(("GLOBAL", ("vp_sink", "other")), "POP", ("GLOBAL", ("builtins", "eval")), sbu("1+1"), "TUPLE1", "REDUCE", "STOP"),
+    "dup-proto-then-os-import": asm(("PROTO", 2), ("PROTO", 2), ("GLOBAL", ("posix", "getpid")), "STOP"),
+}
+BASE_SHAPES = tuple(SHAPES)
+SHAPES.update(EXTRA_SHAPES)
+
 FLOORS = {"likely-unsafe": "LIKELY_UNSAFE", "likely-overtly": "LIKELY_OVERTLY_MALICIOUS", "overtly": "OVERTLY_MALICIOUS"}
 
 
@@ -180,7 +190,7 @@ def same_path_history(rep, wd):
 
     path = os.path.join(wd, "same-path.pkl")
     n = 0
-    for first, second in itertools.permutations(SHAPES, 2):
+    for first, second in itertools.permutations(BASE_SHAPES, 2):
         for name in (first, second, first):
             with open(path, "wb") as f:
                 f.write(SHAPES[name])
@@ -257,11 +267,12 @@ def check(tier):
     rep = Report(PROP, tier)
     kmax = 4 if tier == "thorough" else 3
     kmax = 4
-    stacks = [t for k in range(1, 4) for t in itertools.product(SHAPES, repeat=k)]
-    five = [n for n in SHAPES if n not in ("safe-dict", "dup-proto")]
+    stacks = [t for k in range(1, 4) for t in itertools.product(BASE_SHAPES, repeat=k)]
+    stacks += [(x,) for x in EXTRA_SHAPES] + [(x, b) for x in EXTRA_SHAPES for b in BASE_SHAPES] + [(b, x) for x in EXTRA_SHAPES for b in BASE_SHAPES]
+    five = [n for n in BASE_SHAPES if n not in ("safe-dict", "dup-proto")]
     stacks += list(itertools.product(five, repeat=4))
     if tier == "thorough":
-        stacks += [t for t in itertools.product(SHAPES, repeat=4) if "safe-dict" in t]
+        stacks += [t for t in itertools.product(BASE_SHAPES, repeat=4) if "safe-dict" in t]
         four = ["safe-list", "suspicious", "likely-unsafe", "overtly"]
         stacks += list(itertools.product(four, repeat=5))
         kmax = 5
